@@ -26,7 +26,7 @@ MANIFEST = dict(
          "alone and the loop goes on, no PathDeleteError is ever raised [c14_ignore_skips_entry, "
          "c14_ignore_deletes_entry, c14_ignore_never_path_delete_error, c14_ignore_missing_parent], a "
          "`missing` factory plays no part below a wildcard [c14_missing_irrelevant]; checker theorem c14_model_checks; per-run facts obligation "
-         "by `decide` on the decision shapes regenerated from /repo's AST; model tied to the code by "
+         "by `decide` on the decision shapes regenerated from /repo's AST (incl. c14RemainderRoot: the path evaluated on every entry after a wildcard is rooted at T for T- and S-rooted paths); model tied to the code by "
          "differential execution of real glom / assign / delete calls against the compiled Lean driver "
          "(entries compared by address, heap snapshots after mutation, time budget against hangs).",
     note="trusted: Lean kernel + {propext, Classical.choice, Quot.sound}; extractor (extract/facts/c14.py); "
@@ -45,6 +45,9 @@ RULE = ('type-directed: a target is generated as a heap graph of dict / OrderedD
         'path with 0-3 wildcards (`*` / `**`) at every position among 0-3 plain segments is derived by walking '
         'the graph (mostly valid; absent keys, non-numeric indexes, `bad` names planted), spelled as dotted '
         'text, Path(...) with T.__star__() / T.__starstar__() parts, a mixture with T steps, or one T chain; '
+        '15% of all cases spell the same path from S with the data as a scope variable (S[name].., S.name.., '
+        'Path(S, name, ..), glom(other, spec, scope={name: data})) and are held against the T-rooted evaluation '
+        'of the same data; '
         '22% of the cases are Assign / Delete through the wildcards (final step as plain segment, T[..] or '
         'T.attr; ignore_missing / missing= set or not), plus regular one- and two-level targets whose entries '
         'have or LACK the final key / index / attribute in random positions (lacking ones in front), with '
@@ -493,14 +496,37 @@ def ragged_cases(rng, n):
         yield {'heap': heap, 'target': root, 'spelling': spell(rng, steps, style), 'mut': mut}
 
 
+S_ROOT_P = 0.15
+
+
+def with_sroot(rng, case):
+    """the same data and the same path, spelled from S with the data as a scope variable:
+    S[name]… / S.name… / Path(S, name, …); as one expression when the path is one T chain"""
+    c = dict(case)
+    c['sroot'] = {'var': rng.choice(['e', 'data', 'x']), 'first': rng.choice(['[', '[', '.', 'P']),
+                  'chain': rng.random() < 0.7}
+    return c
+
+
 def generate(rng, tier, scale, **focus):
     n = (1400 if tier == 'quick' else 50000) * scale
+    sp = focus.get('s_root_p', S_ROOT_P)
+
+    def maybe_s(c):
+        # (a wildcard-free, empty path spelled from S would be the bare scope: never generated)
+        has_steps = bool(c['spelling'].get('text') or c['spelling'].get('parts'))
+        return with_sroot(rng, c) if has_steps and rng.random() < sp else c
+
     for c in fixed_cases():
         yield c
+        if c['spelling'].get('text'):
+            yield with_sroot(rng, c)
     for _ in range(n):
-        yield gen_case(rng, focus.get('quirk_rate', 0.0))
-    yield from wide_cases(rng, (60 if tier == 'quick' else 1500) * scale)
-    yield from ragged_cases(rng, (260 if tier == 'quick' else 6000) * scale)
+        yield maybe_s(gen_case(rng, focus.get('quirk_rate', 0.0)))
+    for c in wide_cases(rng, (60 if tier == 'quick' else 1500) * scale):
+        yield maybe_s(c)
+    for c in ragged_cases(rng, (260 if tier == 'quick' else 6000) * scale):
+        yield maybe_s(c)
 
 
 def corpus():
@@ -520,6 +546,12 @@ def corpus():
         out.append({'heap': ragged, 'target': {'r': 0}, 'spelling': sp, 'mut': {'kind': 'delete', 'ignore': True}})
         out.append({'heap': ragged, 'target': {'r': 0}, 'spelling': sp,
                     'mut': {'kind': 'assign', 'val': {'i': 9}, 'missing': 'dict'}})
+    # the same path spelled from S continues from every entry after a wildcard (repaired defect 62e884e:
+    # `glom({}, S['e'].__star__()['k'], scope={'e': [{'k': 1}]})` was [])
+    for first, chain in (('[', True), ('.', True), ('P', False)):
+        for t in ('*.k', '**.k', '*'):
+            out.append({'heap': ragged, 'target': {'r': 0}, 'spelling': {'text': t}, 'mut': None,
+                        'sroot': {'var': 'e', 'first': first, 'chain': chain}})
     p = os.path.join(os.path.dirname(os.path.dirname(os.path.dirname(os.path.abspath(__file__)))),
                      'corpus', 'C14.jsonl')
     if os.path.exists(p):
@@ -547,13 +579,41 @@ def exc_name(e):
     return type(e).__name__
 
 
-def build_spec(sp, dv):
-    from glom import Path, T
-    if 'text' in sp:
+def parts_of_text(text):
+    """the parts `Path.from_text` makes of a dotted string"""
+    return [{'t': [['x', None]]} if s == '*' else {'t': [['X', None]]} if s == '**' else {'seg': {'s': s}}
+            for s in text.split('.')]
+
+
+def build_spec(sp, dv, sroot=None):
+    """the spec object and its number of wildcards.  `sroot` = {'var': name, 'first': '[' | '.' | 'P'}: the
+    same path spelled from S, the data being the scope variable `name`: S[name]… / S.name… /
+    Path(S, name, …)"""
+    from glom import Path, T, S
+    if 'text' in sp and not sroot:
         return sp['text'], len([s for s in sp['text'].split('.') if s in ('*', '**')])
+    src_parts = parts_of_text(sp['text']) if 'text' in sp else sp['parts']
+    if sroot:
+        head = {'[': lambda: S[sroot['var']], '.': lambda: getattr(S, sroot['var'])}.get(sroot['first'])
+        if len(src_parts) == 1 and 't' in src_parts[0] and sroot.get('chain') and head is not None:
+            # one expression: S['e'].__star__()['k'] …
+            t = head()
+            nw = 0
+            for op, arg in src_parts[0]['t']:
+                if op == 'x':
+                    t = t.__star__(); nw += 1
+                elif op == 'X':
+                    t = t.__starstar__(); nw += 1
+                elif op == '.':
+                    t = getattr(t, dv(arg))
+                else:
+                    t = t[dv(arg)]
+            return t, nw
     parts = []
     nw = 0
-    for p in sp['parts']:
+    if sroot:
+        parts = [head()] if head is not None else [S, sroot['var']]
+    for p in src_parts:
         if 'seg' in p:
             parts.append(dv(p['seg']))
         else:
@@ -593,7 +653,13 @@ def run_impl(case):
         out['impl'] = 'skip'
         return out
     target = dv(case['target'])
-    spec, nw = build_spec(case['spelling'], dv)
+    sroot = case.get('sroot')
+    spec, nw = build_spec(case['spelling'], dv, sroot)
+    if sroot:
+        # the data is a scope variable; the target of the call is something else
+        gtarget, gkw = {'unrelated': True}, {'scope': {sroot['var']: target}}
+    else:
+        gtarget, gkw = target, {}
 
     def addr_of(v):
         return ids.get(id(v))
@@ -631,14 +697,19 @@ def run_impl(case):
     try:
         try:
             if mut is None:
-                res = glom.glom(target, spec)
+                res = glom.glom(gtarget, spec, **gkw)
                 out['impl'] = {'ok': enc_res(res, nw)}
             else:
                 err = None
                 try:
                     if mut['kind'] == 'assign':
                         fac = {'dict': dict, 'list': list}.get(mut.get('missing'))
-                        glom.assign(target, spec, dv(mut['val']), missing=fac)
+                        if sroot:
+                            glom.glom(gtarget, glom.Assign(spec, dv(mut['val']), missing=fac), **gkw)
+                        else:
+                            glom.assign(target, spec, dv(mut['val']), missing=fac)
+                    elif sroot:
+                        glom.glom(gtarget, glom.Delete(spec, ignore_missing=bool(mut.get('ignore'))), **gkw)
                     else:
                         glom.delete(target, spec, ignore_missing=bool(mut.get('ignore')))
                 except (PathAccessError, RecursionError):
@@ -664,7 +735,7 @@ def run_impl(case):
 
 def key(case):
     return {'heap': case['heap'], 'target': case['target'], 'spelling': case['spelling'],
-            'mut': case.get('mut')}
+            'mut': case.get('mut'), 'sroot': case.get('sroot')}
 
 
 def nontrivial(case, verdict):
@@ -720,4 +791,7 @@ def classify(case, verdict):
 
 
 def focus(disagreements, facts_changed):
-    return {}
+    f = {}
+    if any(c.get('sroot') for c, _ in disagreements) or 'C14Facts' in (facts_changed or []):
+        f['s_root_p'] = 0.6
+    return f
